@@ -32,6 +32,37 @@ int main (int argc, char** argv)
     E r = invariant (s); out_est ("r", r);
     if (!symbolic) { double want = 0; for (unsigned i=0; i<4; i++) want += 4 * s[i].val * s[i].val * s[i].var;
       expect ("invariant(): first-order variance sum_i (2 S_i)^2 var_i", r.var, want); } });
+#ifndef SYMX_SYMBOLIC
+  // large and tiny magnitudes, negative and zero values: value and first-order variance against the analytic
+  // derivatives evaluated in extended precision (skipped where the exact result is not representable in binary64)
+  fn ("e_magnitudes_plain", [] {
+    typedef long double L;
+    auto check = [] (const char* op, double x, double vx, double y, double vy, const E& r, L val, L dx, L dy) {
+      L var = dx*dx*vx + dy*dy*vy; char what[240];
+      if (!(std::fabs (val) < 1e300L) || !(var < 1e300L) || (var != 0 && var < 1e-300L) || (val != 0 && std::fabs (val) < 1e-300L)) return;
+      snprintf (what, 240, "%s at x = %g +- var %g, y = %g +- var %g: value", op, x, vx, y, vy); expect_true (what, std::fabs (L (r.val) - val) <= 1e-13L * std::fabs (val) + 0.0L);
+      snprintf (what, 240, "%s at x = %g +- var %g, y = %g +- var %g: variance = sum (df/dx_i)^2 var_i", op, x, vx, y, vy); expect_true (what, std::fabs (L (r.var) - var) <= 1e-12L * var); };
+    // magnitudes whose fourth powers are representable (the quotient and atan2 form them)
+    const double vals[] = { 0.0, 1.0, -1.0, 0.3, -2.5, 1e-4, 1e-8, -1e-8, 1e-12, 1e-40, 1e-70, -1e-70, 1e40, -1e40, 1e70, 7.25, 1.5707963267948966, 3.141592653589793 };
+    const double vars[] = { 0.0, 1.0, 0.04, 1e-20, 1e20 };
+    for (double x : vals) for (double y : vals) for (double vx : vars) for (double vy : { 0.0, 0.5, 1e-10, 1e10 }) {
+      E a (x, vx), b (y, vy);
+      check ("x + y", x, vx, y, vy, a + b, L (x) + y, 1, 1); check ("x - y", x, vx, y, vy, a - b, L (x) - y, 1, -1);
+      check ("x * y", x, vx, y, vy, a * b, L (x) * y, y, x);
+      if (y != 0) check ("x / y", x, vx, y, vy, a / b, L (x) / y, 1 / L (y), - L (x) / (L (y) * y));
+      if (y != 0) check ("copysign (x, y)", x, vx, y, vy, copysign (a, b), std::copysign (L (x), L (y)), (std::signbit (x) == std::signbit (y)) ? 1 : -1, 0);
+      if (vy == 0.0 && y == 1.0) {      // unary functions of x
+        check ("- x", x, vx, y, vy, -a, - L (x), -1, 0);
+        if (x != 0) check ("1 / x", x, vx, y, vy, a.inverse (), 1 / L (x), -1 / (L (x) * x), 0);
+        if (std::fabs (x) < 700) check ("exp x", x, vx, y, vy, exp (a), std::exp (L (x)), std::exp (L (x)), 0);
+        if (x > 0) { check ("log x", x, vx, y, vy, log (a), std::log (L (x)), 1 / L (x), 0); check ("sqrt x", x, vx, y, vy, sqrt (a), std::sqrt (L (x)), 1 / (2 * std::sqrt (L (x))), 0); }
+        check ("sin x", x, vx, y, vy, sin (a), std::sin (L (x)), std::cos (L (x)), 0); check ("cos x", x, vx, y, vy, cos (a), std::cos (L (x)), - std::sin (L (x)), 0);
+        check ("atan x", x, vx, y, vy, atan (a), std::atan (L (x)), 1 / (1 + L (x) * x), 0);
+        if (std::fabs (x) < 1) { check ("acos x", x, vx, y, vy, acos (a), std::acos (L (x)), -1 / std::sqrt (1 - L (x) * x), 0); check ("atanh x", x, vx, y, vy, atanh (a), std::atanh (L (x)), 1 / (1 - L (x) * x), 0); }
+        if (std::fabs (x) < 300) { check ("sinh x", x, vx, y, vy, sinh (a), std::sinh (L (x)), std::cosh (L (x)), 0); check ("cosh x", x, vx, y, vy, cosh (a), std::cosh (L (x)), std::sinh (L (x)), 0); } }
+      if (x != 0 || y != 0) { L h = L (x) * x + L (y) * y; check ("atan2 (x, y)", x, vx, y, vy, atan2 (a, b), std::atan2 (L (x), L (y)), y / h, - L (x) / h); }
+    } }, 1);
+#endif
   symx::finish ();
   return 0;
 }
